@@ -1222,10 +1222,15 @@ class BlockwiseRequest(BaseUnicastRequest, interfaces.Request):
             log.error("Error assembling blockwise response (expected first block)")
             raise error.UnexpectedBlock2()
 
-        if not initial_response.opt.block2.is_valid_for_payload_size(
-            len(initial_response.payload)
+        if (
+            not initial_response.opt.block2.is_valid_for_payload_size(
+                len(initial_response.payload)
+            )
+            or not initial_response.payload
         ):
-            # Later blocks are checked in _append_response_block
+            # Later blocks are checked in _append_response_block (like there,
+            # a non-final block without any payload is refused: it does not
+            # advance the transfer)
             log.error("Error assembling blockwise response (first block has bad size)")
             raise error.UnexpectedBlock2("Payload size does not match Block2")
 
